@@ -109,21 +109,19 @@ impl WireServerClient {
         let mut headers = HashMap::new();
         headers.insert("x-ms-version".to_string(), "2012-11-30".to_string());
 
-        hyper_client::get(
-            &url,
-            &headers,
-            self.key_keeper_shared_state
-                .get_current_key_guid()
-                .await
-                .unwrap_or(None),
-            self.key_keeper_shared_state
-                .get_current_key_value()
-                .await
-                .unwrap_or(None),
-            logger::write_warning,
-        )
-        .await
-        .map_err(|e| Error::WireServer(WireServerErrorType::GoalState, e.to_string()))
+        // read the key guid and value together: they must belong to the same key
+        let (key_guid, key) = match self
+            .key_keeper_shared_state
+            .get_current_key_guid_and_value()
+            .await
+            .unwrap_or(None)
+        {
+            Some((guid, key)) => (Some(guid), Some(key)),
+            None => (None, None),
+        };
+        hyper_client::get(&url, &headers, key_guid, key, logger::write_warning)
+            .await
+            .map_err(|e| Error::WireServer(WireServerErrorType::GoalState, e.to_string()))
     }
 
     pub async fn get_shared_config(&self, url: String) -> Result<SharedConfig> {
@@ -133,20 +131,18 @@ impl WireServerClient {
             .map_err(|e| Error::ParseUrl(url, e.to_string()))?;
         headers.insert("x-ms-version".to_string(), "2012-11-30".to_string());
 
-        hyper_client::get(
-            &url,
-            &headers,
-            self.key_keeper_shared_state
-                .get_current_key_guid()
-                .await
-                .unwrap_or(None),
-            self.key_keeper_shared_state
-                .get_current_key_value()
-                .await
-                .unwrap_or(None),
-            logger::write_warning,
-        )
-        .await
-        .map_err(|e| Error::WireServer(WireServerErrorType::SharedConfig, e.to_string()))
+        // read the key guid and value together: they must belong to the same key
+        let (key_guid, key) = match self
+            .key_keeper_shared_state
+            .get_current_key_guid_and_value()
+            .await
+            .unwrap_or(None)
+        {
+            Some((guid, key)) => (Some(guid), Some(key)),
+            None => (None, None),
+        };
+        hyper_client::get(&url, &headers, key_guid, key, logger::write_warning)
+            .await
+            .map_err(|e| Error::WireServer(WireServerErrorType::SharedConfig, e.to_string()))
     }
 }
